@@ -84,6 +84,13 @@ def run(c, chk):
                             if a is not None:
                                 word = a[2]
                     sites.setdefault(f.name, set()).add(word)
+    # the merge site used by the parser ("a repeated title replaces that section in place") must fold case
+    # like option names do: according to the context's flags
+    if 'cfg_t' not in sites.get('cfg_setopt', set()):
+        chk.fail('R9.3', 'title-merge-case:cfg_setopt', c.where(c.need('cfg_setopt')),
+                 'cfg_setopt() no longer compares an incoming title with the existing ones under the context\'s CFGF_NOCASE (found: %s): '
+                 'in a case-insensitive context a repeated title in other letter case is appended instead of replacing the section'
+                 % (sorted(str(x) for x in sites.get('cfg_setopt', [])) or 'no comparison of its own'))
     words = set(w for ws in sites.values() for w in ws)
     if len(sites) < 2:
         raise report.Broken('title comparison sites not found (%s)' % sorted(sites))
@@ -94,7 +101,7 @@ def run(c, chk):
         chk.fail('R9.3', 'title-case-source', c.where(c.need('cfg_opt_gettsecidx')),
                  'section titles are compared case-insensitively according to different flag words (%s): with CFGF_NOCASE on the context, '
                  'cfg_addtsec("a") does not see the existing section "A" but cfg_setopt() then matches and replaces it' % desc)
-    chk.floor('R9.3 functions comparing titles', len(sites), 3)
+    chk.floor('R9.3 functions comparing titles', len(sites), 2)
 
     # ---- R9.4 --------------------------------------------------------------------------------
     from .c18 import result_used
